@@ -39,7 +39,9 @@ def client_stream(rng, kind):
         # several hundred kilobytes: more than the socket buffers between the proxy and a server that is not reading
         out = b""
         while len(out) < 600000:
-            out += pygen.frame(pygen.payload(rng, rng.choice([1005, 1230] + pygen.MSM), rng.randint(100, 900)))
+            # now and then one of the longest frames there are (payload 1017..1023, frame up to 1029 bytes)
+            ln = rng.choice([1017, 1018, 1019, 1021, 1023]) if rng.random() < 0.04 else rng.randint(100, 900)
+            out += pygen.frame(pygen.payload(rng, rng.choice([1005, 1230] + pygen.MSM), ln))
         return out
     if kind == "bigburst":
         # far more than any internal buffer, no pauses: the relay may run ahead of the parser, the report must still be truthful
@@ -83,7 +85,8 @@ def client_stream(rng, kind):
             ln = rng.choice([1, 2, 3, 6, 7, 10, 21, 22, 30, 60, 200])
             parts.append(pygen.frame(pygen.payload(rng, t, ln, fill=rng.choice([None, b"\xff", b"\x00"]))))
         else:
-            parts.append(pygen.frame(pygen.payload(rng, rng.choice([1005, 1006, 1019, 1230, 4094] + pygen.MSM), rng.randint(1, 300))))
+            parts.append(pygen.frame(pygen.payload(rng, rng.choice([1005, 1006, 1019, 1230, 4094] + pygen.MSM),
+                                               rng.choice([1016, 1019, 1020, 1022, 1023]) if rng.random() < 0.12 else rng.randint(1, 300))))
     if rng.random() < 0.5:
         parts.append(pygen.frame(pygen.payload(rng, 1077, 100))[:rng.randint(1, 60)])   # partial frame at the end
     return b"".join(parts)
